@@ -121,11 +121,15 @@ async fn run_case(case: &Case) -> Value {
             let cap = match rng.next(10) {
                 0..=4 => 9,
                 5..=7 => 40,
-                _ => 250,
+                _ => if total > 5000 { 30000 } else { 250 },
             };
             ReadOp::Skip(1 + rng.next((remaining as u64 - 1).min(cap)) as usize)
         } else {
-            ReadOp::Next([0usize, 1, 2, 3, 5, 17, 64][rng.next(7) as usize])
+            if total > 5000 {
+                ReadOp::Next([0usize, 1, 17, 1024, 4096, 4096, 9000][rng.next(7) as usize])
+            } else {
+                ReadOp::Next([0usize, 1, 2, 3, 5, 17, 64][rng.next(7) as usize])
+            }
         };
         match col.step(op).await {
             Err(e) => {
